@@ -193,6 +193,15 @@ def c13_get_through_new_symlink(rp):         # fixed a79246f
     return rp.get('kind') == 'e2e_get_links' and len(names) != len(set(names))
 
 
+def c13_glob_name_with_slash(rp):            # fixed abbc782 (replay objects written by harness/c13_copy.py)
+    return rp.get('kind') == 'copy_glob_dot_basename' and rp.get('glob') is True
+
+
+def c13_preserve_follows_new_link(rp):       # fixed 6e0d949
+    return rp.get('kind') == 'copy_setstat_through_link' and rp.get('preserve') is True and \
+        rp.get('follow_symlinks') is True
+
+
 # ---- C11 (replay objects written by harness/props/c11.py) ------------------------------------------------
 
 def c11_clock_race(rp):                     # fixed 97cb05d
@@ -327,3 +336,13 @@ def c17_address_pattern_port(rp):           # fixed 9f68483: lookup with a port,
 
 def c15_ec_optional_public(rp):              # fixed b0ad5e9
     return rp.get('group') == 'optional_fields ECPrivateKey optional publicKey/parameters'
+
+
+def c19_async_close_late(rp):               # fixed e328342
+    return (rp.get('kind') == 'redirect_e2e' and rp.get('class') == 'async-close-late'
+            and rp.get('target') == 'asyncfile' and rp.get('recv_eof') is True)
+
+
+def c19_attached_after_close(rp):           # fixed fb5761c
+    return (rp.get('kind') == 'redirect_e2e' and rp.get('class') == 'attached-after-close'
+            and rp.get('target') in ('pipe', 'socket'))
